@@ -14,6 +14,10 @@ open Paloma.Abi Paloma.SignBytes Paloma.Attest
         (fields as in `C05 sb`, except `up`: <bytecode> <constructorInput>; inserts or
          replaces the stored message with that id)
   rm <id>                                                                  → ok
+  attestev <id> <shares addr:share,…> <totalShares> <evidence>…   (store order; one token each)
+        evidence: <addr>;tx;<hash>;<status|->;<data>;<deployLog 0|1>;<receiptVariant>
+                | <addr>;err;<n> | <addr>;other;<n>
+      → as `attest`, with proc=<0|1 per distinct tx hash in order of first appearance>
   attest <id> none | err | other | tx <hash> <status|-> <data> <deployLog 0|1>
       → <class> q=<ids> proc=<0|1|-> fx=<effects> active=<n> deps=<…> snap=<0|1>
         class: nil | txfailed | notverified | err | unknown
@@ -118,6 +122,31 @@ def parseWinner? (args : List String) : Option Winner :=
                 deployLog := ← parseBool? log })
   | _ => none
 
+def parseEvidence? (s : String) : Option EvidenceV :=
+  match s.splitOn ";" with
+  | [a, "tx", h, st, data, log, var] => do
+    let st ← (if st == "-" then some none else (parseNat? st).map some)
+    let p : TxProof := { hash := ← parseNat? h, data := ← Driver.C05.parseBytes? data, receipt := st,
+                         deployLog := ← parseBool? log, variant := ← parseNat? var }
+    pure (← parseNat? a, .tx p)
+  | [a, "err", n] => do pure (← parseNat? a, .errorProof (← parseNat? n))
+  | [a, "other", n] => do pure (← parseNat? a, .other (← parseNat? n))
+  | _ => none
+
+/-- distinct transaction hashes of the evidence, in order of first appearance -/
+def txHashes (evs : List EvidenceV) : List Nat :=
+  evs.foldl (fun acc e => match e.2 with
+    | .tx p => if acc.contains p.hash then acc else acc ++ [p.hash]
+    | _ => acc) []
+
+def showOutcome (old s' : St) (r : Res) (proc : String) : String :=
+  -- `deploymentRecorded` is visible in `deps=` (or superseded by `active:`), not printed
+  let isRec := fun (e : Effect) => match e with | .deploymentRecorded _ _ => true | _ => false
+  let fx := ((s'.effects.take (s'.effects.length - old.effects.length)).filter (fun e => !isRec e)).map showEffect
+  s!"{resClass r} q={showNatList (sortNat (s'.queue.map (·.id)))} proc={proc} " ++
+    s!"fx={showList (sortStr fx)} active={s'.chain.activeContract} deps={showDeps s'.chain} " ++
+    s!"snap={if s'.chain.hasSnapshot then 1 else 0}"
+
 def step (d : State) (args : List String) : State × String :=
   match args with
   | ["reset"] => (init, "ok")
@@ -140,19 +169,23 @@ def step (d : State) (args : List String) : State × String :=
     match parseNat? id with
     | some id => ({ d with s := Paloma.Attest.step d.s (.remove id) }, "ok")
     | none => (d, "bad-op")
+  | "attestev" :: id :: shares :: total :: evs =>
+    match parseNat? id, parsePairList? shares, parseNat? total, evs.mapM parseEvidence? with
+    | some id, some shares, some total, some evs =>
+      let (s', r) := attestEv d.s id { vals := shares, total := total } evs
+      let hs := txHashes evs
+      let proc := if hs.isEmpty then "-" else
+        ",".intercalate (hs.map fun h => if s'.processed.contains h then "1" else "0")
+      ({ d with s := s' }, showOutcome d.s s' r proc)
+    | _, _, _, _ => (d, "bad-op")
   | "attest" :: id :: w =>
     match parseNat? id, parseWinner? w with
     | some id, some w =>
       let (s', r) := attest d.s id w
-      -- `deploymentRecorded` is visible in `deps=` (or superseded by `active:`), not printed
-      let isRec := fun (e : Effect) => match e with | .deploymentRecorded _ _ => true | _ => false
-      let fx := ((s'.effects.take (s'.effects.length - d.s.effects.length)).filter (fun e => !isRec e)).map showEffect
       let proc := match w with
         | .tx p => if s'.processed.contains p.hash then "1" else "0"
         | _ => "-"
-      let out := s!"{resClass r} q={showNatList (sortNat (s'.queue.map (·.id)))} proc={proc} " ++
-        s!"fx={showList (sortStr fx)} active={s'.chain.activeContract} deps={showDeps s'.chain} " ++
-        s!"snap={if s'.chain.hasSnapshot then 1 else 0}"
+      let out := showOutcome d.s s' r proc
       ({ d with s := s' }, out)
     | _, _ => (d, "bad-op")
   | _ => (d, "bad-op")
